@@ -22,9 +22,17 @@ ops:
   fromvec d cls e₁…e_{(d+1)²} n v₁…v_n      → ok matrix | e kind
   decomp d uniform U(d²) V(d²) s(d) t(d)    → ok cell ; cell ; cell ; cell # product-matrix
   table E | table C                         → the expected / coded class table in wire format
+  ctor mat d cls skip e₁…e_{(d+1)²}         → ok cell | e kind      (`Homogeneous(M)` / `Affine(M)` / `Similarity(M)`: ctorMat)
+  ctor rot d skip e₁…e_{d²}                 → ok cell               (`Rotation(R)`: ctorRotation)
+  ctor trans d skip t₁…t_d | ctor uscale d skip s | ctor nuscale d skip v₁…v_d   → ok cell | e kind
+  ident d cls                               → ok cell | e kind      (`cls.init_identity(d)`: identityOf)
+  dtprog table S n cell* T n tag* P m stmt* → ok tag*               (dtype of every object after the program: runT;
+                                              tag := int64 | float32 | float64 | -)
 -/
 import MenpoModel.Core.Codec
 import MenpoModel.Core.C03Compose
+import MenpoModel.Core.C03Ctor
+import MenpoModel.Core.C03Dtype
 
 namespace MenpoModel.Drive.C03
 open MenpoModel.Codec MenpoModel.C03
@@ -223,6 +231,62 @@ def opDecomp (d : Nat) : P String := do
     | _, _ => none) (some (Mat.one (d + 1)))
   pure ("ok " ++ " ; ".intercalate (ls.map fmtLeaf) ++ " # " ++ (match prod with | some p => fmtM p | none => "none"))
 
+def fmtRes {d : Nat} : Except Err (HT d) → String
+  | .ok t => "ok " ++ fmtCell (.fam d t)
+  | .error e => fmtErr e
+
+def opCtor (kind : String) (d : Nat) : P String := do
+  match kind with
+  | "mat" => do
+    let c ← pCls
+    let skip ← pBool
+    let es ← pMany pRat ((d + 1) * (d + 1))
+    pure (fmtRes (ctorMat c (Mat.ofList (d + 1) es).freeze skip))
+  | "rot" => do
+    let _skip ← pBool
+    let es ← pMany pRat (d * d)
+    pure (fmtRes (.ok (ctorRotation (Mat.ofList d es).freeze) : Except Err (HT d)))
+  | "trans" => do
+    let skip ← pBool
+    let ts ← pMany pRat d
+    pure (fmtRes (ctorTranslation (Vec.ofList d ts) skip))
+  | "uscale" => do
+    let skip ← pBool
+    let s ← pRat
+    pure (fmtRes (ctorUniformScale s d skip))
+  | "nuscale" => do
+    let skip ← pBool
+    let vs ← pMany pRat d
+    pure (fmtRes (ctorNonUniformScale (Vec.ofList d vs) skip))
+  | _ => failure
+
+def opIdent (d : Nat) : P String := do
+  let c ← pCls
+  pure (fmtRes (identityOf c d))
+
+def pTag : P (Option DT) := do
+  let t ← tok
+  match t with
+  | "int64" => pure (some .int64)
+  | "float32" => pure (some .float32)
+  | "float64" => pure (some .float64)
+  | "-" => pure none
+  | _ => failure
+
+def fmtTag : Option DT → String
+  | some .int64 => "int64" | some .float32 => "float32" | some .float64 => "float64" | none => "-"
+
+def opDtProg : P String := do
+  let tbl ← pTable
+  pKw "S"
+  let cells ← pList pCell
+  pKw "T"
+  let tags ← pList pTag
+  pKw "P"
+  let ss ← pList pStmt
+  let (_, ts) := runT tbl (cells, tags) ss
+  pure ("ok" ++ String.join (ts.map fun t => " " ++ fmtTag t))
+
 def step (toks : List String) : String :=
   match toks with
   | ["table", "E"] => fmtTable expectedClassTable
@@ -232,6 +296,11 @@ def step (toks : List String) : String :=
   | "applyc" :: rest => (runP opApplyC rest).getD "bad-op"
   | "dim" :: rest => (runP opDim rest).getD "bad-op"
   | "reach" :: rest => (runP opReach rest).getD "bad-op"
+  | "dtprog" :: rest => (runP opDtProg rest).getD "bad-op"
+  | "ctor" :: kind :: ds :: rest =>
+    match ds.toNat? with
+    | some d => (runP (opCtor kind d) rest).getD "bad-op"
+    | none => "bad-op"
   | op :: ds :: rest =>
     match ds.toNat? with
     | none => "bad-op"
@@ -240,6 +309,7 @@ def step (toks : List String) : String :=
         | "apply" => some (opApply d)
         | "fromvec" => some (opFromVec d)
         | "decomp" => some (opDecomp d)
+        | "ident" => some (opIdent d)
         | _ => none
       match p with
       | none => "bad-op"
